@@ -456,7 +456,12 @@ fn main() {
             let per_row: u64 = n.parse().expect("harness: --recipsweep <samples per row>");
             recip_sweep(&mut m, per_row);
         } else {
-            workload(&mut m);
+            loop {
+                workload(&mut m);
+                if !m.another_light_pass() {
+                    break;
+                }
+            }
         }
     }
     m.finish();
